@@ -85,6 +85,8 @@ def strip(n):
             n = n["e"]
         elif k == "Block" and not n.get("stmts") and n.get("tail"):
             n = n["tail"]
+        elif k == "Block" and n.get("inlined") and n.get("tail") and all(s.get("k") == "Let" and not s.get("els") for s in n.get("stmts", [])):
+            n = n["tail"]       # an inlined helper in expression position: its lets stay visible to LetEnv, its value is its tail
         elif k == "MethodCall" and n.get("method") in ("as_slice", "as_mut_slice", "by_ref") and not n.get("args") and (
                 (n.get("path") or "").startswith(("std::vec::Vec", "core::slice::", "core::array::", "std::array::", "std::slice::", "alloc::vec::Vec", "std::io::Read::by_ref", "std::io::Write::by_ref"))):
             n = n["recv"]       # the same bytes / the same stream
